@@ -462,7 +462,9 @@ impl<'a, 'b> Gen<'a, 'b> {
                 let use_esz = self.p.elemsize && self.s.below(4) == 0;
                 match self.pick_struct(!use_esz, rt && !use_esz) {
                     Some(si) => {
-                        if use_esz {
+                        // the language reference does not document _elementsize_; the canonical tests
+                        // use it for elements of non-constant size only, so that is the domain here
+                        if use_esz && si.static_size.is_none() {
                             esz = Some(self.len_width().min(16).max(2));
                         }
                         (Elem::Ty(si.id.clone()), si.static_size, si.min, si.self_delim)
